@@ -863,6 +863,13 @@ impl Drop for TStream {
                 stream_event(&self.w, nxt, None, true);
             }
         }
+        if self.w.case.cfg.stream_wakes_on_drop {
+            if let Some(wk) = self.w.with(|i| i.streams[self.s].waker.take()) {
+                self.w.with(|i| i.stats.stream_drop_wakes += 1);
+                self.w.hist(|| format!("stream s{} wakes its last waker from its destructor", self.s));
+                wk.wake();
+            }
+        }
         if early {
             let (prop, obj) = self.w.with(|i| (if i.streams[self.s].is_pipe { "C12" } else { "C11" }, i.streams[self.s].pipe_obj));
             self.w.fail(prop, "input-stream-released-early", obj, None, format!("the pipe dropped its input stream s{} although the stream has not ended and the Desync is still alive: later items can never be processed", self.s));
